@@ -188,6 +188,23 @@ def _env_instances(tier):
     return out
 
 
+def h_fresh_results(ctx):
+    """parse_expr is stateless: the operand lists it returns are the caller's (no two results share one, and what a caller does to
+    a result cannot show up in a later parse of the same bytes)"""
+    e = ctx.cfg['env']
+    parser, X = _parser(ctx, e)
+    data = [0x55, 0x55, 0x96, 0x93, 0x04, 0x96, 0x9f]
+    r1 = parser.parse_expr(data)
+    lists = [op.args for op in r1]
+    ctx.check('fresh/no-shared-operand-lists', all(a is not b for i, a in enumerate(lists) for b in lists[i + 1:]))
+    for op in r1:
+        op.args.append(99)
+    r2 = parser.parse_expr(data)
+    ctx.check_eq('fresh/second-parse-unaffected-by-edits-to-the-first', [(op.op, list(op.args), op.offset) for op in r2],
+                 [(0x55, [], 0), (0x55, [], 1), (0x96, [], 2), (0x93, [4], 3), (0x96, [], 5), (0x9f, [], 6)])
+    ctx.outcome('ok')
+
+
 def h_empty(ctx):
     e = ctx.cfg['env']
     parser, X = _parser(ctx, e)
@@ -242,5 +259,7 @@ HARNESSES = [
     H('h12_6_envs', h_envs, _env_instances, expect=('ok',),
       desc='one expression skeleton with environment-dependent operands inside nested entry_value blocks (call_ref, addr, implicit_pointer, const4u), '
            'parsed in turn by the parsers of three units that differ in offset size, address size or byte order'),
+    H('h12_7_fresh_results', h_fresh_results, lambda tier: [dict(env=e) for e in ENVS_Q], expect=('ok',), decoy=-1,
+      desc='results of parse_expr share no operand lists and a later parse is unaffected by edits to an earlier result (ground)'),
     H('h12_5_empty', h_empty, lambda tier: [dict(env=ENVS_Q[0])], expect=('ok',), desc='empty expression'),
 ]
